@@ -128,6 +128,16 @@ class C14(SessionCheck):
                 ET2.fromstring(raw.encode('utf-8'))
             except Exception as e:
                 return ('C14:non-xml-reached-caller', 'take_notification returned a payload that is not well-formed XML: %r (%s)' % (raw[:80], type(e).__name__))
+        # a reply the library parses for the caller (reply.ok / data_ele / …) is well-formed XML for an independent parser as well
+        last_obs = obs[-1]
+        for i, st in rpc_states(last_obs).items():
+            pv = (last_obs.get('reply_parses') or [])
+            if st.startswith('R') and i - 1 < len(pv) and pv[i - 1] == 'P':
+                raw = _unhexs(st[1:])
+                try:
+                    ET2.fromstring(raw.encode('utf-8'))
+                except Exception as e:
+                    return ('C14:non-xml-reply-parsed-as-data', 'request %d holds a reply that is not well-formed XML (%s), yet the library parses it and hands its content to the caller: %r' % (i, type(e).__name__, raw[:100]))
         # a request only ever completes with a well-formed reply carrying its id (never garbage as data)
         for o in obs:
             for i, st in rpc_states(o).items():
